@@ -4,7 +4,7 @@
 id=$1; prop=$2; tier=${3:-quick}; shift 3
 cd /verif
 if ! git -C /repo diff --quiet; then echo "REFUSING: /repo has uncommitted changes"; exit 2; fi
-git -C /repo apply seeded/$id/patch.diff || { echo "patch does not apply"; exit 2; }
+git -C /repo apply /verif/seeded/$id/patch.diff || { echo "patch does not apply"; exit 2; }
 ./check $prop --tier $tier "$@" > /tmp/seedtest_${id}_${prop}.log 2>&1; rc=$?
 git -C /repo checkout -- .
 echo "seed=$id property=$prop tier=$tier exit=$rc"
